@@ -342,6 +342,26 @@ func (sfr *SegmentFileReader) readBlock(blockNum uint16) (bool, error) {
 	return true, nil
 }
 
+var ErrBlockOutsideFile = fmt.Errorf("block offset and length do not lie inside the file")
+
+// The offset and length of a column's block come from the block summary file.
+// Check that they describe a part of the column file before any buffer is
+// allocated for them.
+func CheckBlockLiesInFile(fd *os.File, offset int64, length uint32) error {
+	if fd == nil {
+		return ErrNilParam
+	}
+	finfo, err := fd.Stat()
+	if err != nil {
+		return err
+	}
+	if offset < 0 || offset > finfo.Size() || int64(length) > finfo.Size()-offset {
+		return ErrBlockOutsideFile
+	}
+
+	return nil
+}
+
 // Helper function to decompresses and loads block using passed buffers.
 // Returns whether the block is valid, and any error encountered.
 //
@@ -377,6 +397,9 @@ func (sfr *SegmentFileReader) loadBlockUsingBuffer(blockNum uint16) (bool, error
 	if cOffAndLen.Length == 0 {
 		// This is an invalid block & not an error because this column never existed for this block
 		return false, nil
+	}
+	if err := CheckBlockLiesInFile(sfr.currFD, cOffAndLen.Offset, cOffAndLen.Length); err != nil {
+		return true, ErrReadFile
 	}
 	if sfr.currRawBlockBuffer == nil {
 		sfr.currRawBlockBuffer = GetBufFromPool(int64(COMPRESSION_FACTOR * cOffAndLen.Length))
